@@ -194,26 +194,49 @@ func DescribeEntry(e *Entry) string {
 	return b.String()
 }
 
-// Describe renders the whole trace; runs of entries that differ only in their sequence number are folded.
+// Describe renders the whole trace; repetitions of a block of 1-4 entries (ignoring sequence numbers) are folded.
 func (t *Trace) Describe() string {
+	es := t.Since(0)
+	full := make([]string, len(es))
+	body := make([]string, len(es))
+	for i, e := range es {
+		full[i] = DescribeEntry(e)
+		body[i] = full[i][strings.Index(full[i], " ")+1:]
+	}
 	var lines []string
-	prev, n := "", 0
-	flush := func() {
-		if n > 1 {
-			lines[len(lines)-1] += fmt.Sprintf("   (x%d)", n)
+	for i := 0; i < len(es); {
+		folded := false
+		for p := 1; p <= 4 && !folded; p++ {
+			k := 1
+			for i+(k+1)*p <= len(es) {
+				same := true
+				for j := 0; j < p; j++ {
+					if body[i+j] != body[i+k*p+j] {
+						same = false
+						break
+					}
+				}
+				if !same {
+					break
+				}
+				k++
+			}
+			if k >= 3 {
+				for j := 0; j < p; j++ {
+					l := full[i+j]
+					if j == p-1 {
+						l += fmt.Sprintf("   (the last %d entries x%d)", p, k)
+					}
+					lines = append(lines, l)
+				}
+				i += k * p
+				folded = true
+			}
+		}
+		if !folded {
+			lines = append(lines, full[i])
+			i++
 		}
 	}
-	for _, e := range t.Since(0) {
-		l := DescribeEntry(e)
-		body := l[strings.Index(l, " ")+1:]
-		if body == prev {
-			n++
-			continue
-		}
-		flush()
-		lines = append(lines, l)
-		prev, n = body, 1
-	}
-	flush()
 	return strings.Join(lines, "\n")
 }
